@@ -34,6 +34,15 @@ pub fn pool(tier: &str) -> Vec<Term> {
     let mut s2 = (**s).clone();
     s2.map.root = Some("r".into());
     s2.map.file = Some("out.js".into());
+    v.push(Term::Sms(Box::new(s2.clone())));
+    // a root that already ends in a slash, inside a composite (names are resolved by streaming)
+    s2.map.root = Some("r/".into());
+    v.push(Term::concat(vec![Term::Sms(Box::new(s2.clone())), Term::raw("x")]));
+    v.push(Term::Sms(Box::new(s2.clone())));
+    // the original text given although there is no inner map (a field no observer reads, but
+    // equality, hash and Clone see it)
+    s2.map.root = None;
+    s2.original_source = Some("orig text\n".into());
     v.push(Term::Sms(Box::new(s2)));
   }
   v.push(crate::c09::example_combined());
@@ -536,6 +545,12 @@ fn edit_mapspec(m: &crate::term::MapSpec, what: &str) -> Vec<(String, crate::ter
       None => "root".into(),
     });
     push("source_root", x);
+  }
+  // one more trailing slash on an existing root ("r" -> "r/", "r/" -> "r//")
+  if let Some(r) = &m.root {
+    let mut x = m.clone();
+    x.root = Some(format!("{r}/"));
+    push("source_root_extra_slash", x);
   }
   v
 }
